@@ -28,16 +28,27 @@ MODELS = {
     "resolve": (None, "SPECIFICATION Spec\nCONSTANTS ModeSlice = \"{q}\"\nINVARIANTS Inv_C10 Inv_C13\nCHECK_DEADLOCK FALSE\n",
                 {"quick": "default", "thorough": "all"}),
 }
+def _pa(prop):
+    import verdict_gen
+    return (f"---- MODULE MC_pa_{prop} ----\nEXTENDS MC_ParseAttr\nmcLims == {verdict_gen.lims_tla()}\n====\n",
+            "SPECIFICATION Spec\nCONSTANTS\n Lims <- mcLims\n Tier = \"quick\"\n NRand = {q}\n Prop = \"" + prop + "\"\n IterMatchImplemented = TRUE\n"
+            "INVARIANTS Consistent Inv_ParserIsCatalogue\nCHECK_DEADLOCK FALSE\n", {"quick": 20, "thorough": 400})
+
+
+MODELS["parseattr_c13"] = _pa("C13")
+MODELS["parseattr_c10"] = _pa("C10")
+
 # the named deviations of the pinned tree must be FOUND by the model checker (discriminating power of the models)
 NEGATIVE = {
     "gencode_i4_pinned_offset": ("gencode_i4", lambda cfg: cfg.replace("UsePinnedOffset = FALSE", "UsePinnedOffset = TRUE").replace("MaxCard = 16", "MaxCard = 3"), "Inv_"),
     "parsevalues_pinned_neg": ("parsevalues", lambda cfg: cfg.replace("UsePinnedNeg = FALSE", "UsePinnedNeg = TRUE").replace("N = 3", "N = 2"), "Inv_Verdict"),
+    "parseattr_iter_match": ("parseattr_c10", lambda cfg: cfg.replace("IterMatchImplemented = TRUE", "IterMatchImplemented = FALSE"), "Inv_ParserIsCatalogue"),
     "iterimpl_pinned_table": ("iterimpl_i3", lambda cfg: cfg.replace("PinnedTable = FALSE", "PinnedTable = TRUE"), "ConstructorOK"),
 }
 FOR_PROP = {"C01": ["gencode_i4", "gencode_u4", "gencode_i8"], "C03": ["gencode_i4", "gencode_u4", "gencode_i8"],
             "C04": ["gencode_i4", "gencode_u4"], "C05": ["gencode_i4", "gencode_u4", "gencode_i8"],
             "C02": ["gencode_i4", "iterimpl_i3", "iterimpl_u3"], "C06": ["iterimpl_i3", "iterimpl_u3"], "C07": ["iterimpl_i3", "iterimpl_u3", "gencode_i4"],
-            "C08": ["iterimpl_u3"], "C09": ["resolve"], "C10": ["resolve"], "C13": ["resolve"],
+            "C08": ["iterimpl_u3"], "C09": ["resolve"], "C10": ["resolve", "parseattr_c10"], "C13": ["resolve", "parseattr_c13"],
             "C11": ["parsevalues"], "C12": ["parsevalues"], "C14": ["parsevalues"]}
 
 
